@@ -461,3 +461,70 @@ package processor
 //@     invariant [nothing-of-the-stream-position-is-reset-at-a-batch-boundary] i >= 0 && implies(i == 0, p.currentIndex == old(p.currentIndex) && p.currentBucketKey == old(p.currentBucketKey))
 //@   bounded processor/streamstats_split_test.go Test_Bounded_StreamstatsBatchSplit 8 rows, window=3 sum and reset_on_change sum by a key, one batch against each of the 7 ways of cutting the rows into two batches (14 comparisons): every row gets the same value
 //@ end
+
+// C06 (dedup consecutive=true means the same however the stream is batched):
+// in consecutive mode the processor remembers only the run it is in — after
+// every processed row its hash map holds no key but the hash of that row.
+// This is a representation invariant of the processor ("at most one key while
+// consecutive"), kept ACROSS batches: a remembered run that was not purged at a
+// batch boundary would drop a later, non-adjacent repetition.
+//@ spec dedupAtMostOneKey(m map[uint64]int) bool = forallkey(a, uint64, forallkey(b, uint64, implies(haskey(m, a) && haskey(m, b), a == b)))
+//@ func NewDedupDP
+//@   props C06
+//@   requires options != nil
+//@   establishes result true
+//@ end
+//@ func (*dedupProcessor).Rewind
+//@   props C06
+//@   requires p != nil
+//@   recvinv p implies(p.options != nil && p.options.DedupOptions != nil && p.options.DedupOptions.Consecutive, dedupAtMostOneKey(p.combinationHashes))
+//@ end
+//@ func (*dedupProcessor).Cleanup
+//@   props C06
+//@   requires p != nil
+//@   recvinv p implies(p.options != nil && p.options.DedupOptions != nil && p.options.DedupOptions.Consecutive, dedupAtMostOneKey(p.combinationHashes))
+//@ end
+//@ func (*dedupProcessor).Process
+//@   props C06
+//@   assumecalleerequires
+//@   requires p != nil && p.options != nil && p.options.DedupOptions != nil
+//@   recvinv p implies(p.options != nil && p.options.DedupOptions != nil && p.options.DedupOptions.Consecutive, dedupAtMostOneKey(p.combinationHashes))
+//@   loop 2:
+//@     invariant [only-the-current-run-is-remembered-between-rows] p.options == old(p.options) && p.options.DedupOptions == old(p.options.DedupOptions) && p.options.DedupOptions.Consecutive == old(p.options.DedupOptions.Consecutive) && implies(p.options.DedupOptions.Consecutive, dedupAtMostOneKey(p.combinationHashes))
+//@   loop 3:
+//@     invariant [option-objects-untouched] p.options == old(p.options) && p.options.DedupOptions == old(p.options.DedupOptions) && p.options.DedupOptions.Consecutive == old(p.options.DedupOptions.Consecutive) && implies(p.options.DedupOptions.Consecutive, dedupAtMostOneKey(p.combinationHashes))
+//@   loop 4:
+//@     invariant [visited-other-runs-are-forgotten] p.options == old(p.options) && p.options.DedupOptions == old(p.options.DedupOptions) && p.options.DedupOptions.Consecutive == old(p.options.DedupOptions.Consecutive) && forallkey(h, uint64, implies(visited(4, h) && h != hash, !haskey(p.combinationHashes, h)))
+//@   bounded processor/dedup_split_test.go Test_Bounded_DedupBatchSplit every stream of length <= 5 over 3 values, plain and consecutive=true, limit 1 and 2, one batch against every cut into two batches (5112 comparisons): the same rows are kept
+//@ end
+
+// C05 (newest-first results are in order over ALL data): blocks are chosen up to
+// the cut-off time of the segments fetched so far, so records are released only
+// up to that cut-off — in every round, also one that chose no new block
+// (segments that end beyond the cut-off have not been searched yet and can hold
+// newer records than the leftovers).  Ghosts: the sort mode of this fetch, the
+// cut-off the release bound was clamped to, and whether it was clamped.
+//@ ghostdecl fetchMode int
+//@ ghostdecl fetchCutOff uint64
+//@ ghostdecl fetchClamped int
+//@ func getNextBlocks
+//@   assumed
+//@   pure
+//@   note frame only (ASSUMED): chooses a prefix of the sorted block list through comparison functions (dynamic calls); writes nothing of the searcher
+//@ end
+//@ func (*Searcher).fetchRRCs
+//@   props C05
+//@   assumecalleerequires
+//@   ghostinit ghost(0, "fetchClamped") == 0
+//@   site callret getNextBlocks #1:
+//@     ghostset ghost(0, "fetchMode") = int(arg2)
+//@   site call max #1:
+//@     ghostset ghost(0, "fetchClamped") = 1
+//@     ghostset ghost(0, "fetchCutOff") = arg1
+//@   site call min #1:
+//@     ghostset ghost(0, "fetchClamped") = 1
+//@     ghostset ghost(0, "fetchCutOff") = arg1
+//@   site call getValidRRCs #1:
+//@     assume int(arg2) == ghost(0, "fetchMode")
+//@     assert [records-are-released-only-up-to-the-cut-off] implies(arg2 == recentFirst, ghost(0, "fetchClamped") == 1 && arg1 >= ghost(0, "fetchCutOff")) && implies(arg2 == recentLast, ghost(0, "fetchClamped") == 1 && arg1 <= ghost(0, "fetchCutOff"))
+//@ end
